@@ -3,6 +3,7 @@ package main
 // C20 — progress line: clamp and ladder structure.
 
 import (
+	"sort"
 	"go/types"
 	"fmt"
 	"go/token"
@@ -77,7 +78,11 @@ func c20R1(c *Ctx) {
 			if i == nil {
 				continue
 			}
-			op, _, y, ok := cmpFact(normFact(fact{V: i.Cond, Pol: true}))
+			op, x, y, ok := cmpFact(normFact(fact{V: i.Cond, Pol: true}))
+			if ok && op == token.GTR { // bound > i
+				op, x, y = token.LSS, y, x
+			}
+			_ = x
 			if ok && op == token.LSS && b.Comment == "for.loop" {
 				c.check(sameValue(y, full), "getProgressBar/colour-loop-bound", c.ipos(i), "the coloured cells loop to the clamped count", "the coloured-cell loop is bounded by an unclamped value")
 			}
@@ -267,6 +272,20 @@ func c20R4(c *Ctx) {
 		c.lost("name / name width / right part at the ladder exit")
 	}
 	fallbacks := 0
+	// number the exits in source order (the order of done.Preds depends on how the branches are written)
+	order := map[*ssa.BasicBlock]int{}
+	{
+		var ifs []*ssa.BasicBlock
+		for _, p := range done.Preds {
+			if blockIf(p) != nil {
+				ifs = append(ifs, p)
+			}
+		}
+		sort.Slice(ifs, func(a, b int) bool { return blockIf(ifs[a]).Cond.Pos() < blockIf(ifs[b]).Cond.Pos() })
+		for n, p := range ifs {
+			order[p] = n
+		}
+	}
 	for k, p := range done.Preds {
 		i := blockIf(p)
 		if i == nil {
@@ -275,12 +294,13 @@ func c20R4(c *Ctx) {
 			c.check(emptyName && isConstIntV(0)(pw.Edges[k]), "ladder/last-fallback-clears-name", c.pos(f.Pos()), "the last fallback drops the name", "the unconditional fallback keeps a name that did not fit")
 			continue
 		}
-		// true edge goes to done
-		if p.Succs[0] != done {
-			c.bad(fmt.Sprintf("ladder/exit%d", k), c.ipos(i), "a ladder exit is not the true edge of its test")
-			continue
+		// the edge that leaves the ladder, whichever way the test is written
+		var op token.Token
+		var x, y ssa.Value
+		ok := false
+		for _, fc := range edgeFactsTo(p, done) {
+			op, x, y, ok = cmpFact(fc)
 		}
-		op, x, y, ok := cmpFact(normFact(fact{V: i.Cond, Pol: true}))
 		shape := ok && op == token.GEQ && isConstIntV(barMin)(y)
 		var usedW, usedR ssa.Value
 		if shape {
@@ -297,7 +317,7 @@ func c20R4(c *Ctx) {
 			}
 		}
 		good := shape && usedW != nil && usedR != nil && sameValue(usedW, pw.Edges[k]) && sameValue(usedR, pr.Edges[k])
-		c.check(good, fmt.Sprintf("ladder/exit%d-fit-test", k), c.ipos(i), "this exit is taken only when columns - nameWidth - len(right) >= 24 for exactly the name/right it leaves with",
+		c.check(good, fmt.Sprintf("ladder/exit%d-fit-test", order[p]), c.ipos(i), "this exit is taken only when columns - nameWidth - len(right) >= 24 for exactly the name/right it leaves with",
 			"a ladder exit is not guarded by the fit test on the values it leaves with (the line can exceed the width)")
 	}
 	c.check(fallbacks == 1, "ladder/one-fallback", c.pos(f.Pos()), "exactly one unconditional fallback", fmt.Sprintf("%d unconditional exits from the ladder", fallbacks))
